@@ -39,7 +39,8 @@ RULE = ("a case = loop configuration × environment script × worker programs (s
         "distinct = hash of the case JSON")
 
 C09_KINDS = ("runnable_tasks", "blocked_tasks", "all_tasks !=", "task_is_runnable", "ready_find-raised")
-TRIVIAL_TAGS = {"obs-outside", "obs-callback", "obs-in-task", "future-setres"}
+TRIVIAL_TAGS = {"obs-outside", "obs-callback", "obs-in-task", "future-setres", "task_from_handle-misclassifies",
+                "case-aborted-after-violation"}
 
 
 # ---------------------------------------------------------------------------------------
@@ -144,13 +145,14 @@ def case_ops(case):
 NEUTRAL = {"step", "resume", "newfut", "create", "obs", "a", "s", "w", "ret"}
 
 
-def final_key(prov, small):
+def final_key(prov, small, tags=()):
     """Identity of the defect class = what failed + the distinguishing actions of the *minimised*
-    case; the two known root causes get their own names."""
+    case; the two known root causes get their own names (the second one is recognised from the run
+    itself: asynkit's task_from_handle and the harness's classifier disagreed on a queued handle)."""
     if prov == "api-raises-outside-running-loop":
         return prov
     ops = case_ops(small)
-    if "cscancel" in ops:
+    if "task_from_handle-misclassifies" in tags:
         return "task-bound-non-step-callback-in-ready-queue"
     return prov + ":" + "+".join(sorted(ops - NEUTRAL))
 
@@ -248,7 +250,7 @@ def explore(ctx, cases, kinds=C09_KINDS, theorem="Asynkit.C09.partition", label=
             small = shrink_case(case, lambda c: fails_with(c, prov, kinds))
             w2 = K.run_case(small)
             p2 = next((q for q in my_problems(w2, kinds) if prov_key(q["kind"]) == prov), p)
-            key = final_key(prov, small)
+            key = final_key(prov, small, w2.tags)
             provs[prov] = key
             ctx.violation(key, f"{label}{p2['kind']}", small,
                           expected=expected or "all_tasks = runnable_tasks ⊎ blocked_tasks ⊎ {current}; "
@@ -256,23 +258,31 @@ def explore(ctx, cases, kinds=C09_KINDS, theorem="Asynkit.C09.partition", label=
                           observed=p2["detail"], theorem=theorem)
     bad = model_check(ctx, worlds, theorem, label)
     for n, (w, i, line, real, m) in enumerate(bad):
-        if n >= 2:
+        if n >= 1:
             break
         case = w.case
+        calls = [0]
 
         def disagrees(c):
+            # every probe costs one driver start (~0.6 s): bounded effort
+            if calls[0] >= 30 or ctx.time_left() < 10:
+                return False
+            calls[0] += 1
             try:
                 _, b = first_mismatch(ctx, c)
             except core.InfraError:
                 return False
             return b is not None
-        small = shrink_case(case, disagrees) if ctx.time_left() > 15 else case
+        small = shrink_case(case, disagrees)
         w2, b2 = first_mismatch(ctx, small)
         if b2 is None:
             small, w2, b2 = case, w, (w, i, line, real, m)
         _, i2, line2, real2, m2 = b2
         ctx.disagreement(f"{label}model and real loop differ after `{line2}` (event {i2})", small,
                          expected=m2, observed=real2, theorem="trace acceptance Drivers/Kernel")
+    for (w, i, line, real, m) in bad[1:3]:
+        ctx.disagreement(f"{label}model and real loop differ after `{line}` (event {i})", w.case,
+                         expected=m, observed=real, theorem="trace acceptance Drivers/Kernel")
     return worlds
 
 
